@@ -402,6 +402,18 @@ class Interp:
             if key:
                 self.assign(key, v, e.get("span"))
         else:
+            # a call of another method on `self` (one that was not spliced in: it has early returns, or is part of the baseline) may store into
+            # any field: what was known about the fields it can reach is forgotten (monotonicity unknown)
+            if ek == "MethodCall" and e.get("callee") and "f64" not in str(e.get("callee")) and "f32" not in str(e.get("callee")):
+                r_ = K.peel(e.get("recv") or {})
+                while r_.get("k") in ("AddrOf", "Unary"):
+                    r_ = K.peel(r_.get("e") or {})
+                if r_.get("k") == "Path" and (r_.get("res") or {}).get("name") == "self" and str(e.get("recv_ty") or "").startswith("&mut") or \
+                   (r_.get("k") == "Path" and (r_.get("res") or {}).get("name") == "self" and not str(e.get("callee")).startswith(("core::", "std::", "alloc::"))):
+                    for kk in list(self.env):
+                        if kk[0] == "F" and kk[1].startswith("self.") and not kk[1].startswith("self.settings"):
+                            self.env[kk] = AV(None, "T")
+                    self.events.append(("havoc", None, AV(), e.get("span")))
             self.ev(e)
 
     def run(self, body_value):
